@@ -1400,7 +1400,7 @@ theorem remove_extra (U c1 p1 ref p2 c2 W : Str)
     (hwr : firstNonWs (p2 ++ (c2 ++ W)) = none ∨ firstNonWs (p2 ++ (c2 ++ W)) = some ',' ∨
            firstNonWs (p2 ++ (c2 ++ W)) = some ')')
     (hwf : chain none (U ++ (c1 ++ (p1 ++ (ref ++ (p2 ++ (c2 ++ W)))))) = true) :
-    (removerOut true ⟨U, c1, p1, p2, c2, W⟩ ≠ [] ∨ U = [] ∨ (∃ us, U = us ++ ['(']) ∨ W = [] ∨
+    ((∃ x ∈ removerOut true ⟨U, c1, p1, p2, c2, W⟩, clsOf x ≠ .ws) ∨ U = [] ∨ (∃ us, U = us ++ ['(']) ∨ W = [] ∨
       (∃ cs, W = ')' :: cs)) ∧
     (U ++ (removerOut true ⟨U, c1, p1, p2, c2, W⟩ ++ W) = [] ∨
       ∃ c ∈ U ++ (removerOut true ⟨U, c1, p1, p2, c2, W⟩ ++ W), clsOf c ≠ .ws) := by
@@ -1429,18 +1429,22 @@ theorem remove_extra (U c1 p1 ref p2 c2 W : Str)
       intro e
       have := congrArg List.length e
       simp at this; omega
-    refine ⟨Or.inl hne, Or.inr ⟨'(', ?_, by rw [clsOf_opn]; simp⟩⟩
-    simp only [List.mem_append, List.mem_replicate]
-    exact Or.inr (Or.inl (Or.inr ⟨by omega, trivial⟩))
+    have hmem : '(' ∈ c1 ++ List.replicate (p1.count '(' - p2.count ')') '(' := by
+      simp only [List.mem_append, List.mem_replicate]
+      exact Or.inr ⟨by omega, trivial⟩
+    exact ⟨Or.inl ⟨'(', hmem, by rw [clsOf_opn]; simp⟩,
+      Or.inr ⟨'(', List.mem_append_right _ (List.mem_append_left _ hmem), by rw [clsOf_opn]; simp⟩⟩
   · by_cases hba : p2.count ')' > p1.count '('
     · simp only [hab, hba, if_true, if_false]
       have hne : List.replicate (p2.count ')' - p1.count '(') ')' ++ c2 ≠ [] := by
         intro e
         have := congrArg List.length e
         simp at this; omega
-      refine ⟨Or.inl hne, Or.inr ⟨')', ?_, by rw [clsOf_cls]; simp⟩⟩
-      simp only [List.mem_append, List.mem_replicate]
-      exact Or.inr (Or.inl (Or.inl ⟨by omega, trivial⟩))
+      have hmem : ')' ∈ List.replicate (p2.count ')' - p1.count '(') ')' ++ c2 := by
+        simp only [List.mem_append, List.mem_replicate]
+        exact Or.inl ⟨by omega, trivial⟩
+      exact ⟨Or.inl ⟨')', hmem, by rw [clsOf_cls]; simp⟩,
+        Or.inr ⟨')', List.mem_append_right _ (List.mem_append_left _ hmem), by rw [clsOf_cls]; simp⟩⟩
     · simp only [hab, hba, if_false]
       by_cases hcm : ',' ∈ c1
       · simp only [List.contains_iff_mem, hcm, if_true]
@@ -1457,12 +1461,13 @@ theorem remove_extra (U c1 p1 ref p2 c2 W : Str)
           · exact e
         obtain ⟨us, cu, eU, hcu⟩ := hUne
         refine ⟨?_, Or.inr ⟨cu, by simp [eU], (notC_cls cu hcu).1⟩⟩
-        by_cases hc2e : c2 = []
+        by_cases hc2in : ',' ∈ c2
+        · exact Or.inl ⟨',', hc2in, by rw [clsOf_comma]; simp⟩
         · right; right; right
+          have hc2m : ',' ∉ c2 := hc2in
           rcases hW with e | ⟨c, cs, e, hc⟩
           · exact Or.inl e
           · right
-            have hc2m : ',' ∉ c2 := by simp [hc2e]
             have e5 : q5 = q4 := by
               rcases f5 with ⟨e', _⟩ | ⟨_, hm, _⟩
               · exact e'
@@ -1495,7 +1500,6 @@ theorem remove_extra (U c1 p1 ref p2 c2 W : Str)
                 · have : c = ')' := Option.some.inj e'
                   subst this; exact clsOf_cls
             exact ⟨cs, by rw [clsOf_cls_iff c hcls]⟩
-        · exact Or.inl hc2e
       · have hcm' : c1.contains ',' = false := by
           simpa [List.contains_iff_mem] using hcm
         simp only [hcm', if_false, Bool.false_eq_true]
@@ -2109,6 +2113,11 @@ theorem step_good (t name v pre post : Str) (hname : ∀ c ∈ name, isRefChar c
     rw [e2] at hwr
     obtain ⟨hJ, hN⟩ := remove_extra g.u g.c1 g.p1 (mkRef name) g.p2 g.c2 g.w hc1 hp1 hp2 hc2 href
       (mkRef_ne name) hU hW hwl hwr hwf'
+    have hJ : removerOut true g ≠ [] ∨ g.u = [] ∨ (∃ us, g.u = us ++ ['(']) ∨ g.w = [] ∨
+        (∃ cs, g.w = ')' :: cs) := by
+      rcases hJ with ⟨x, hx, _⟩ | h
+      · left; intro e; rw [e] at hx; cases hx
+      · exact Or.inr h
     refine ⟨h1, h2, ?_, ?_⟩
     · rw [hrep]
       rcases hN with e | e
@@ -2467,5 +2476,1065 @@ theorem removal_is_tree_pruning_bounded : ∀ p ∈ oneRef 3,
 example : (oneRef 3).length = 802 ∧
     (⟨"(R), ((({c})), (R))".toList, some "(R), ((R))".toList, 1⟩ : PR) ∈ oneRef 3 ∧
     (⟨"(({c}))".toList, none, 1⟩ : PR) ∈ oneRef 3 := by decide +kernel
+
+end HedVerif.C06
+
+/-! ## several references per host text; the regex's behaviour position by position -/
+
+namespace HedVerif.Assemble
+
+/-! ### several references in one text: where the other reference is, and that it stays whole -/
+
+theorem takeWhile_stop (p : Char → Bool) (z : Char) (hz : p z = false) : ∀ (l r : Str),
+    (l ++ z :: r).takeWhile p = l.takeWhile p ∧ (l ++ z :: r).dropWhile p = l.dropWhile p ++ z :: r
+  | [], r => by constructor <;> simp [hz]
+  | c :: cs, r => by
+    have ih := takeWhile_stop p z hz cs r
+    by_cases hc : p c = true
+    · constructor <;> simp [hc, ih.1, ih.2]
+    · constructor <;> simp [hc]
+
+/-- the match never reaches back over a character that is in neither class: the text before it is kept -/
+theorem groups_prefix (X Y post : Str) (z : Char) (h1 : isP1 z = false) (h2 : isC z = false) :
+    groups (X ++ z :: Y) post = { groups Y post with u := X ++ z :: (groups Y post).u } := by
+  have e : (X ++ z :: Y).reverse = Y.reverse ++ z :: X.reverse := by simp
+  simp only [groups, e, (takeWhile_stop isP1 z h1 _ _).1, (takeWhile_stop isP1 z h1 _ _).2,
+    (takeWhile_stop isC z h2 _ _).1, (takeWhile_stop isC z h2 _ _).2]
+  simp
+
+theorem groups_suffix (pre Y X : Str) (z : Char) (h1 : isP2 z = false) (h2 : isC z = false) :
+    groups pre (Y ++ z :: X) = { groups pre Y with w := (groups pre Y).w ++ z :: X } := by
+  simp only [groups, (takeWhile_stop isP2 z h1 _ _).1, (takeWhile_stop isP2 z h1 _ _).2,
+    (takeWhile_stop isC z h2 _ _).1, (takeWhile_stop isC z h2 _ _).2]
+
+theorem name_close_inj : ∀ (n n' A B : Str), '}' ∉ n → '}' ∉ n' → n ++ '}' :: A = n' ++ '}' :: B → n = n'
+  | [], [], _, _, _, _, _ => rfl
+  | [], c :: cs, _, _, _, h, e => by
+    simp only [List.nil_append, List.cons_append, List.cons.injEq] at e
+    exact absurd (List.mem_cons.mpr (Or.inl e.1)) h
+  | c :: cs, [], _, _, h, _, e => by
+    simp only [List.nil_append, List.cons_append, List.cons.injEq] at e
+    exact absurd (List.mem_cons.mpr (Or.inl e.1.symm)) h
+  | c :: cs, d :: ds, A, B, h, h', e => by
+    simp only [List.cons_append, List.cons.injEq] at e
+    rw [e.1, name_close_inj cs ds A B (fun m => h (by simp [m])) (fun m => h' (by simp [m])) e.2]
+
+theorem mkRef_inj_of_prefix (n n' A B : Str) (hn : ∀ c ∈ n, isRefChar c = true)
+    (hn' : ∀ c ∈ n', isRefChar c = true) (e : mkRef n ++ A = mkRef n' ++ B) : n = n' := by
+  simp only [mkRef, List.cons_append, List.cons.injEq, true_and, List.append_assoc] at e
+  exact name_close_inj n n' A B (fun m => (refChar_facts _ (hn _ m)).2.2 rfl)
+    (fun m => (refChar_facts _ (hn' _ m)).2.2 rfl) e
+
+/-- two occurrences of different references do not overlap: one lies wholly before the other -/
+theorem locate (n n' pre post pre' post' : Str) (hn : ∀ c ∈ n, isRefChar c = true)
+    (hn' : ∀ c ∈ n', isRefChar c = true) (hne : n ≠ n')
+    (e : pre ++ (mkRef n ++ post) = pre' ++ (mkRef n' ++ post')) :
+    (∃ y, pre = pre' ++ (mkRef n' ++ y) ∧ post' = y ++ (mkRef n ++ post)) ∨
+    (∃ y, pre' = pre ++ (mkRef n ++ y) ∧ post = y ++ (mkRef n' ++ post')) := by
+  have key : ∀ (m m' a b a' b' : Str), (∀ c ∈ m, isRefChar c = true) → (∀ c ∈ m', isRefChar c = true) →
+      m ≠ m' → a ++ (mkRef m ++ b) = a' ++ (mkRef m' ++ b') → (∃ x, a' = a ++ x ∧ mkRef m ++ b = x ++ (mkRef m' ++ b')) →
+      ∃ y, a' = a ++ (mkRef m ++ y) ∧ b = y ++ (mkRef m' ++ b') := by
+    intro m m' a b a' b' hm hm' hmm _ ⟨x, e1, e2⟩
+    rcases List.append_eq_append_iff.mp e2 with ⟨as, e3, e4⟩ | ⟨bs, e3, e4⟩
+    · exact ⟨as, by rw [e1, e3], e4⟩
+    · -- mkRef m = x ++ bs, mkRef m' ++ b' = bs ++ b
+      by_cases hb : bs = []
+      · subst hb
+        simp only [List.append_nil, List.nil_append] at e3 e4
+        exact ⟨[], by rw [e1, ← e3]; simp, by simpa using e4.symm⟩
+      · exfalso
+        by_cases hx : x = []
+        · subst hx
+          simp only [List.nil_append] at e3
+          rw [← e3] at e4
+          exact hmm (mkRef_inj_of_prefix m m' b b' hm hm' e4.symm)
+        · have hh := (mkRef_split m x bs hx hb e3).2
+          have hd : bs.head? = some '{' := by
+            cases bs with
+            | nil => exact absurd rfl hb
+            | cons y ys =>
+              have e5 : mkRef m' ++ b' = y :: (ys ++ b) := e4
+              simp only [mkRef, List.cons_append, List.cons.injEq] at e5
+              rw [← e5.1]; rfl
+          rcases hh '{' hd with h | h
+          · exact (refChar_facts _ (hm _ h)).2.1 rfl
+          · cases h
+  rcases List.append_eq_append_iff.mp e with ⟨x, e1, e2⟩ | ⟨x, e1, e2⟩
+  · exact Or.inr (key n n' pre post pre' post' hn hn' hne e ⟨x, e1, e2⟩)
+  · exact Or.inl (key n' n pre' post' pre post hn' hn (Ne.symm hne) e.symm ⟨x, e1, e2⟩)
+
+/-! `splitFirst` on modified texts -/
+
+theorem isPrefixOf_append_irrel : ∀ (R X Y Y' : Str), R.length ≤ X.length →
+    R.isPrefixOf (X ++ Y) = R.isPrefixOf (X ++ Y')
+  | [], _, _, _, _ => by simp [List.isPrefixOf]
+  | r :: rs, [], _, _, h => by simp at h
+  | r :: rs, x :: xs, Y, Y', h => by
+    simp only [List.cons_append, List.isPrefixOf]
+    rw [isPrefixOf_append_irrel rs xs Y Y' (by simpa using h)]
+
+theorem splitFirst_self (R Q : Str) (hR : R ≠ []) : splitFirst R (R ++ Q) = some ([], Q) := by
+  cases R with
+  | nil => exact absurd rfl hR
+  | cons r rs =>
+    have hp : List.isPrefixOf (r :: rs) (r :: (rs ++ Q)) = true :=
+      List.isPrefixOf_iff_prefix.mpr ⟨Q, rfl⟩
+    rw [List.cons_append, splitFirst, if_pos hp]
+    simp
+
+/-- the first occurrence is decided by the text up to its end -/
+theorem splitFirst_same_prefix (R : Str) (hR : R ≠ []) : ∀ (P Q Q' : Str),
+    splitFirst R (P ++ (R ++ Q)) = some (P, Q) → splitFirst R (P ++ (R ++ Q')) = some (P, Q')
+  | [], _, Q', _ => splitFirst_self R Q' hR
+  | c :: P, Q, Q', h => by
+    rw [List.cons_append, splitFirst] at h ⊢
+    have hl : R.length ≤ (c :: (P ++ R)).length := by simp; omega
+    have hirr := isPrefixOf_append_irrel R (c :: (P ++ R)) Q Q' hl
+    simp only [List.cons_append, List.append_assoc] at hirr
+    split at h
+    · simp at h
+    · rename_i hp
+      rw [if_neg (by rw [← hirr]; exact hp)]
+      cases hs : splitFirst R (P ++ (R ++ Q)) with
+      | none => simp [hs] at h
+      | some ab =>
+        obtain ⟨a, b⟩ := ab
+        simp only [hs, Option.some.injEq, Prod.mk.injEq, List.cons.injEq, true_and] at h
+        obtain ⟨rfl, rfl⟩ := h
+        rw [splitFirst_same_prefix R hR a b Q' hs]
+
+theorem splitFirst_pre_none (R : Str) : ∀ (t a b : Str), splitFirst R t = some (a, b) → splitFirst R a = none
+  | [], _, _, h => by simp [splitFirst] at h
+  | c :: cs, a, b, h => by
+    rw [splitFirst] at h
+    split at h
+    · simp only [Option.some.injEq, Prod.mk.injEq] at h
+      rw [← h.1]; rfl
+    · rename_i hp
+      cases hs : splitFirst R cs with
+      | none => simp [hs] at h
+      | some ab =>
+        obtain ⟨a', b'⟩ := ab
+        simp only [hs, Option.some.injEq, Prod.mk.injEq] at h
+        obtain ⟨rfl, rfl⟩ := h
+        have ih := splitFirst_pre_none R cs a' b' hs
+        have hcs := splitFirst_eq R cs a' b' hs
+        rw [splitFirst, ih]
+        have : ¬ R.isPrefixOf (c :: a') = true := by
+          intro hq
+          apply hp
+          have h1 := List.isPrefixOf_iff_prefix.mp hq
+          apply List.isPrefixOf_iff_prefix.mpr
+          rw [hcs]
+          exact h1.trans ⟨R ++ b', by simp⟩
+        simp [this]
+
+/-- no occurrence in `A`, none across the junction: the first occurrence in `A ++ C` is that of `C` -/
+theorem splitFirst_append_shift (R : Str) (C : Str) : ∀ (A : Str), splitFirst R A = none →
+    (∀ a' m, a' ≠ [] → m ≠ [] → R = a' ++ m → a' <:+ A → m <+: C → False) →
+    splitFirst R (A ++ C) = (splitFirst R C).map (fun p => (A ++ p.1, p.2))
+  | [], _, _ => by
+    simp only [List.nil_append]
+    cases splitFirst R C with
+    | none => rfl
+    | some v => cases v; rfl
+  | c :: A, h, hb => by
+    have hA := splitFirst_tail R c A h
+    have hnp : ¬ R.isPrefixOf (c :: A) = true := by
+      intro hq; rw [splitFirst, if_pos hq] at h; cases h
+    have ih := splitFirst_append_shift R C A hA
+      (fun a' m ha hm e hs hp => hb a' m ha hm e (hs.trans ⟨[c], rfl⟩) hp)
+    have hnp' : ¬ R.isPrefixOf (c :: (A ++ C)) = true := by
+      intro hq
+      have h1 : R <+: (c :: A) ++ C := List.isPrefixOf_iff_prefix.mp hq
+      rcases List.prefix_or_prefix_of_prefix h1 (List.prefix_append (c :: A) C) with h2 | h2
+      · exact hnp (List.isPrefixOf_iff_prefix.mpr h2)
+      · obtain ⟨m, em⟩ := h2
+        by_cases hm : m = []
+        · subst hm
+          apply hnp
+          rw [← em]; simp
+        · have hmC : m <+: C := by
+            rw [← em] at h1
+            exact (List.prefix_append_right_inj (c :: A)).mp h1
+          exact hb (c :: A) m (by simp) hm em.symm (List.suffix_refl _) hmC
+    rw [List.cons_append, splitFirst, if_neg hnp', ih]
+    cases splitFirst R C with
+    | none => rfl
+    | some v => cases v; rfl
+
+end HedVerif.Assemble
+
+namespace HedVerif.Assemble
+
+theorem ws_or_nonWs (s : Str) : (∀ c ∈ s, clsOf c = .ws) ∨ (∃ c ∈ s, clsOf c ≠ .ws) := by
+  by_cases h : ∃ c ∈ s, clsOf c ≠ .ws
+  · exact Or.inr h
+  · left
+    intro c hc
+    apply Classical.byContradiction
+    intro h'; exact h ⟨c, hc, h'⟩
+
+theorem firstNonWs_append_nonWs : ∀ (A B : Str), (∃ c ∈ A, clsOf c ≠ .ws) →
+    firstNonWs (A ++ B) = firstNonWs A
+  | [], _, h => by obtain ⟨c, hc, _⟩ := h; cases hc
+  | a :: A, B, h => by
+    rw [List.cons_append, firstNonWs, firstNonWs]
+    by_cases hs : isSpace a = true
+    · rw [if_pos hs, if_pos hs]
+      apply firstNonWs_append_nonWs A B
+      obtain ⟨c, hc, hn⟩ := h
+      rcases List.mem_cons.mp hc with e | e
+      · subst e; exact absurd ((clsOf_ws_iff _).mpr hs) hn
+      · exact ⟨c, e, hn⟩
+    · rw [if_neg hs, if_neg hs]
+
+theorem lastNonWs_append_nonWs : ∀ (A B : Str), (∃ c ∈ B, clsOf c ≠ .ws) →
+    lastNonWs (A ++ B) = lastNonWs B
+  | [], _, _ => rfl
+  | a :: A, B, h => by
+    have ih := lastNonWs_append_nonWs A B h
+    have hb : lastNonWs B ≠ none := lastNonWs_ne_none B (mem_nonWs_first B h)
+    rw [List.cons_append, lastNonWs, ih]
+    cases hl : lastNonWs B with
+    | none => exact absurd hl hb
+    | some x => rfl
+
+theorem lastNonWs_append_ws : ∀ (A B : Str), (∀ c ∈ B, clsOf c = .ws) →
+    lastNonWs (A ++ B) = lastNonWs A
+  | [], B, h => by simpa [lastNonWs] using ws_lastNonWs_none B h
+  | a :: A, B, h => by
+    rw [List.cons_append, lastNonWs, lastNonWs, lastNonWs_append_ws A B h]
+
+theorem lastNonWs_mem : ∀ (s : Str) (c : Char), lastNonWs s = some c → c ∈ s ∧ isSpace c = false
+  | [], _, h => by simp [lastNonWs] at h
+  | a :: as, c, h => by
+    rw [lastNonWs] at h
+    cases ha : lastNonWs as with
+    | some z =>
+      simp only [ha] at h
+      have := lastNonWs_mem as c (by rw [ha, h])
+      exact ⟨List.mem_cons_of_mem _ this.1, this.2⟩
+    | none =>
+      simp only [ha] at h
+      by_cases hs : isSpace a = true
+      · simp [hs] at h
+      · simp only [hs] at h
+        have : a = c := by simpa using h
+        subst this
+        exact ⟨by simp, by simpa using hs⟩
+
+theorem firstNonWs_mem : ∀ (s : Str) (c : Char), firstNonWs s = some c → c ∈ s ∧ isSpace c = false
+  | [], _, h => by simp [firstNonWs] at h
+  | a :: as, c, h => by
+    rw [firstNonWs] at h
+    by_cases hs : isSpace a = true
+    · rw [if_pos hs] at h
+      have := firstNonWs_mem as c h
+      exact ⟨List.mem_cons_of_mem _ this.1, this.2⟩
+    · rw [if_neg hs] at h
+      have : a = c := Option.some.inj h
+      subst this
+      exact ⟨by simp, by simpa using hs⟩
+
+theorem chain_first : ∀ (S : Str) (q : Option Cls) (c : Char), chain q S = true →
+    firstNonWs S = some c → ok q (clsOf c) = true
+  | [], _, _, _, h => by simp [firstNonWs] at h
+  | d :: ds, q, c, h, hf => by
+    rw [firstNonWs] at hf
+    by_cases hs : isSpace d = true
+    · rw [if_pos hs] at hf
+      have hw := (clsOf_ws_iff d).mpr hs
+      have e : chain q (d :: ds) = chain q ds := by unfold chain; rw [run, if_pos hw]
+      rw [e] at h
+      exact chain_first ds q c h hf
+    · rw [if_neg hs] at hf
+      have : d = c := Option.some.inj hf
+      subst this
+      have hw : clsOf d ≠ .ws := fun e => hs ((clsOf_ws_iff d).mp e)
+      unfold chain at h
+      rw [run, if_neg hw] at h
+      by_cases ho : ok q (clsOf d) = true
+      · exact ho
+      · rw [if_neg ho] at h; cases h
+
+/-- a character of the remover's output is a blank, a comma or a parenthesis -/
+theorem out_class (g : Groups) (hc1 : ∀ c ∈ g.c1, isC c = true) (hc2 : ∀ c ∈ g.c2, isC c = true) :
+    ∀ x ∈ removerOut true g, isC x = true ∨ x = '(' ∨ x = ')' := by
+  intro x hx
+  rcases out_chars g x hx with h | h | h | h
+  · exact Or.inl (hc1 x h)
+  · exact Or.inl (hc2 x h)
+  · exact Or.inr (Or.inl h)
+  · exact Or.inr (Or.inr h)
+
+theorem remove_no_new_gen (name' : Str) (hn' : ∀ c ∈ name', isRefChar c = true) (U0 out W0 : Str)
+    (hout : ∀ x ∈ out, isC x = true ∨ x = '(' ∨ x = ')')
+    (hA : splitFirst (mkRef name') U0 = none) (hB : splitFirst (mkRef name') W0 = none)
+    (hJ : (∃ x ∈ out, clsOf x ≠ .ws) ∨ U0 = [] ∨ (∃ us, U0 = us ++ ['(']) ∨ W0 = [] ∨ (∃ cs, W0 = ')' :: cs)) :
+    splitFirst (mkRef name') (U0 ++ (out ++ W0)) = none := by
+  have hR' := mkRef_ne name'
+  have hbad := refChars_bad name' hn'
+  have hob : '{' ∉ out := by
+    intro hm
+    rcases hout _ hm with h | h | h
+    · revert h; decide
+    · cases h
+    · cases h
+  have hC : splitFirst (mkRef name') (out ++ W0) = none := by
+    have := splitFirst_skip (name' ++ ['}']) out W0 hob
+    rw [show mkRef name' = '{' :: (name' ++ ['}']) from rfl, this]
+    rw [show mkRef name' = '{' :: (name' ++ ['}']) from rfl] at hB
+    rw [hB]; rfl
+  apply splitFirst_append_none _ _ _ hR' hA hC
+  intro a' m ha hm e hsuf hpre
+  obtain ⟨hl, hh⟩ := mkRef_split name' a' m ha hm e
+  cases ho : out with
+  | cons x xs =>
+    have hg := prefix_head m _ hm hpre
+    rw [ho, List.cons_append, List.head?_cons] at hg
+    have hb' := hbad x (by rcases hh x hg with e' | e'; exact Or.inl e'; exact Or.inr (Or.inl e'))
+    rcases hout x (by rw [ho]; simp) with h | h | h
+    · rw [h] at hb'; cases hb'.1
+    · exact hb'.2.1 h
+    · exact hb'.2.2.1 h
+  | nil =>
+    rw [ho, List.nil_append] at hpre
+    rcases hJ with ⟨x, hx, _⟩ | h | ⟨us, h⟩ | h | ⟨cs, h⟩
+    · rw [ho] at hx; cases hx
+    · rw [h] at hsuf
+      exact ha (List.suffix_nil.mp hsuf)
+    · have hg := suffix_getLast a' _ ha hsuf
+      rw [h, List.getLast?_concat] at hg
+      rcases hl '(' hg with e' | e'
+      · cases e'
+      · exact (hbad '(' (Or.inl e')).2.1 rfl
+    · rw [h] at hpre
+      exact hm (List.prefix_nil.mp hpre)
+    · have hg := prefix_head m _ hm hpre
+      rw [h, List.head?_cons] at hg
+      rcases hh ')' hg with e' | e'
+      · exact (hbad ')' (Or.inl e')).2.2.1 rfl
+      · cases e'
+
+theorem splice_no_new_gen (A B v name' : Str) (hbr : '{' ∉ v)
+    (hlast : ∀ as x, A = as ++ [x] → (x = '{' ∨ x ∈ name') → False)
+    (hA : splitFirst (mkRef name') A = none) (hB : splitFirst (mkRef name') B = none) :
+    splitFirst (mkRef name') (A ++ (v ++ B)) = none := by
+  have hR' := mkRef_ne name'
+  have hC : splitFirst (mkRef name') (v ++ B) = none := by
+    have := splitFirst_skip (name' ++ ['}']) v B hbr
+    rw [show mkRef name' = '{' :: (name' ++ ['}']) from rfl, this]
+    rw [show mkRef name' = '{' :: (name' ++ ['}']) from rfl] at hB
+    rw [hB]; rfl
+  apply splitFirst_append_none _ _ _ hR' hA hC
+  intro a' m ha hm e hsuf _
+  have hl := (mkRef_split name' a' m ha hm e).1
+  have hg := suffix_getLast a' A ha hsuf
+  cases hx : a'.getLast? with
+  | none => exact ha (List.getLast?_eq_none_iff.mp hx)
+  | some x =>
+    rw [hx] at hg
+    obtain ⟨as, eas⟩ := List.getLast?_eq_some_iff.mp hg.symm
+    exact hlast as x eas (hl x hx)
+
+/-- `{name}` occurs exactly once in `t`, as a whole tag -/
+def Once (R t : Str) : Prop :=
+  ∃ pre post, splitFirst R t = some (pre, post) ∧ splitFirst R post = none ∧ wholeTag pre post
+
+end HedVerif.Assemble
+
+namespace HedVerif.Assemble
+
+theorem lastNonWs_mkRef (P n : Str) : lastNonWs (P ++ mkRef n) = some '}' := by
+  have : P ++ mkRef n = (P ++ '{' :: n) ++ ['}'] := by simp [mkRef]
+  rw [this]; exact lastNonWs_snoc _ '}' (by decide)
+
+theorem firstNonWs_mkRef (n Q : Str) : firstNonWs (mkRef n ++ Q) = some '{' := by
+  simp [mkRef, firstNonWs, show isSpace '{' = false by decide]
+
+/-- a suffix that would start a straddling occurrence cannot begin with `{` -/
+theorem no_straddle_before_ref (n' Q A : Str) (hn' : ∀ c ∈ n', isRefChar c = true) :
+    ∀ a' m, a' ≠ [] → m ≠ [] → mkRef n' = a' ++ m → a' <:+ A → m <+: mkRef n' ++ Q → False := by
+  intro a' m ha hm e _ hp
+  have hh := (mkRef_split n' a' m ha hm e).2
+  have hd := prefix_head m _ hm hp
+  rw [show mkRef n' ++ Q = '{' :: (n' ++ ['}'] ++ Q) by simp [mkRef], List.head?_cons] at hd
+  rcases hh '{' hd with h | h
+  · exact (refChar_facts _ (hn' _ h)).2.1 rfl
+  · cases h
+
+theorem splice_keeps_once (t n v pre post : Str) (hn : ∀ c ∈ n, isRefChar c = true) (hbr : '{' ∉ v)
+    (hs : splitFirst (mkRef n) t = some (pre, post)) (hwhole : wholeTag pre post)
+    (n' : Str) (hn' : ∀ c ∈ n', isRefChar c = true) (hne : n' ≠ n) (ho : Once (mkRef n') t) :
+    Once (mkRef n') (pre ++ (v ++ post)) := by
+  obtain ⟨P, Q, hsP, hQ, hwP⟩ := ho
+  have ht := splitFirst_eq _ t pre post hs
+  have htP := splitFirst_eq _ t P Q hsP
+  have hR' := mkRef_ne n'
+  have e : pre ++ (mkRef n ++ post) = P ++ (mkRef n' ++ Q) := by
+    rw [← List.append_assoc, ← ht, htP, List.append_assoc]
+  have hsP' : splitFirst (mkRef n') (P ++ (mkRef n' ++ Q)) = some (P, Q) := by
+    rw [← List.append_assoc, ← htP]; exact hsP
+  have hbadc := refChars_bad n' hn'
+  rcases locate n n' pre post P Q hn hn' (Ne.symm hne) e with ⟨y, e1, e2⟩ | ⟨y, e1, e2⟩
+  · -- the other reference comes first
+    refine ⟨P, y ++ (v ++ post), ?_, ?_, hwP.1, ?_⟩
+    · rw [e1]
+      simp only [List.append_assoc]
+      exact splitFirst_same_prefix _ hR' P Q _ hsP'
+    · rw [e2] at hQ
+      refine splice_no_new_gen y post v n' hbr ?_ (splitFirst_none_left _ y _ hR' hQ)
+        (splitFirst_none_right _ (mkRef n) _ hR' (splitFirst_none_right _ y _ hR' hQ))
+      intro as x eas hx
+      have hb := hbadc x (by rcases hx with h | h; exact Or.inr (Or.inr h); exact Or.inl h)
+      have hl : lastNonWs pre = some x := by
+        rw [e1, eas, ← List.append_assoc, ← List.append_assoc]
+        exact lastNonWs_snoc _ x hb.2.2.2
+      rcases hwhole.1 with h | h | h <;> rw [hl] at h
+      · cases h
+      · have : x = ',' := Option.some.inj h
+        subst this; simp [isC] at hb
+      · exact hb.2.1 (Option.some.inj h)
+    · rcases ws_or_nonWs y with hy | hy
+      · exfalso
+        have hl : lastNonWs pre = some '}' := by
+          rw [e1, ← List.append_assoc, lastNonWs_append_ws _ y hy]
+          exact lastNonWs_mkRef P n'
+        rcases hwhole.1 with h | h | h <;> rw [hl] at h <;> cases h
+      · rw [firstNonWs_append_nonWs y _ hy]
+        have := hwP.2
+        rw [e2, firstNonWs_append_nonWs y _ hy] at this
+        exact this
+  · -- the other reference comes after
+    have hPabs : splitFirst (mkRef n') (pre ++ (mkRef n ++ y)) = none := by
+      rw [← e1]; exact splitFirst_pre_none _ t P Q hsP
+    refine ⟨pre ++ (v ++ y), Q, ?_, hQ, ?_, hwP.2⟩
+    · rw [e2]
+      have habs : splitFirst (mkRef n') (pre ++ (v ++ y)) = none :=
+        splice_no_new pre y v n n' hn' hbr hwhole.1 hPabs
+      have := splitFirst_append_shift (mkRef n') (mkRef n' ++ Q) (pre ++ (v ++ y)) habs
+        (no_straddle_before_ref n' Q _ hn')
+      rw [splitFirst_self _ _ hR'] at this
+      simpa [List.append_assoc] using this
+    · rcases ws_or_nonWs y with hy | hy
+      · exfalso
+        have hf : firstNonWs post = some '{' := by
+          rw [e2, firstNonWs_ws_append y _ hy]; exact firstNonWs_mkRef n' Q
+        rcases hwhole.2 with h | h | h <;> rw [hf] at h <;> cases h
+      · have e3 : pre ++ (v ++ y) = (pre ++ v) ++ y := by simp
+        rw [e3, lastNonWs_append_nonWs _ y hy]
+        have := hwP.1
+        rw [e1, ← List.append_assoc, lastNonWs_append_nonWs _ y hy] at this
+        exact this
+
+end HedVerif.Assemble
+
+namespace HedVerif.Assemble
+
+theorem comma_of_isC_nonWs (c : Char) (h : isC c = true) (hs : isSpace c = false) : c = ',' := by
+  simpa [isC, hs] using h
+
+set_option maxHeartbeats 1000000 in
+theorem remove_keeps_once (t n v pre post : Str) (hn : ∀ c ∈ n, isRefChar c = true)
+    (hv : v = [] ∨ v = NA) (hs : splitFirst (mkRef n) t = some (pre, post))
+    (hone : splitFirst (mkRef n) post = none) (hwf : delimOk t = true) (hwhole : wholeTag pre post)
+    (n' : Str) (hn' : ∀ c ∈ n', isRefChar c = true) (hne : n' ≠ n) (ho : Once (mkRef n') t) :
+    Once (mkRef n') (replaceRef t n v) := by
+  have hcls : ∀ c ∈ n, clsOf c = .other := fun c hc => (refChar_facts c (hn c hc)).1
+  have hcls' : ∀ c ∈ n', clsOf c = .other := fun c hc => (refChar_facts c (hn' c hc)).1
+  have href := mkRef_other n hcls
+  have href' := mkRef_other n' hcls'
+  obtain ⟨hrep, hd'⟩ := HedVerif.C06.na_wellformed_partial t n v pre post hv hcls hs hone hwf hwhole
+  obtain ⟨P, Q, hsP, hQ, hwP⟩ := ho
+  have ht := splitFirst_eq _ t pre post hs
+  have htP := splitFirst_eq _ t P Q hsP
+  have hR' := mkRef_ne n'
+  have e : pre ++ (mkRef n ++ post) = P ++ (mkRef n' ++ Q) := by
+    rw [← List.append_assoc, ← ht, htP, List.append_assoc]
+  have hsP' : splitFirst (mkRef n') (P ++ (mkRef n' ++ Q)) = some (P, Q) := by
+    rw [← List.append_assoc, ← htP]; exact hsP
+  -- the match groups of the whole text and what stands at the junction
+  obtain ⟨f1, f2, hc1, hp1, hp2, hc2, hU, hW⟩ := groups_spec pre post
+  have hwl := hwhole.1
+  have hwr := hwhole.2
+  obtain ⟨g, hgdef⟩ : ∃ g, g = groups pre post := ⟨_, rfl⟩
+  rw [← hgdef] at f1 f2 hc1 hp1 hp2 hc2 hU hW hrep
+  have hwf' := hwf
+  rw [delimOk_eq_chain, ht, f1, f2] at hwf'
+  simp only [List.append_assoc] at hwf'
+  rw [f1] at hwl
+  rw [f2] at hwr
+  obtain ⟨hJ, -⟩ := remove_extra g.u g.c1 g.p1 (mkRef n) g.p2 g.c2 g.w hc1 hp1 hp2 hc2 href
+    (mkRef_ne n) hU hW hwl hwr hwf'
+  have houtc := out_class g hc1 hc2
+  rw [hrep]
+  rw [hrep, delimOk_eq_chain] at hd'
+  rcases locate n n' pre post P Q hn hn' (Ne.symm hne) e with ⟨y, e1, e2⟩ | ⟨y, e1, e2⟩
+  · -- the other reference comes first: pre = P ++ (R' ++ y)
+    obtain ⟨s1, -, -, -, -, -, sU, -⟩ := groups_spec y post
+    have epre : pre = (P ++ '{' :: n') ++ '}' :: y := by rw [e1]; simp [mkRef]
+    have hg : groups pre post =
+        { groups y post with u := (P ++ '{' :: n') ++ '}' :: (groups y post).u } := by
+      rw [epre]; exact groups_prefix _ _ _ '}' (by decide) (by decide)
+    generalize groups y post = gy at hg s1 sU
+    have hg' := hgdef.trans hg
+    subst hg'
+    dsimp only at f1 f2 hc1 hp1 hp2 hc2 hU hW hJ houtc hd' ⊢
+    have eout : removerOut true { gy with u := (P ++ '{' :: n') ++ '}' :: gy.u } = removerOut true gy := rfl
+    rw [eout] at hJ houtc hd' ⊢
+    have eT : (P ++ '{' :: n') ++ '}' :: gy.u ++ (removerOut true gy ++ gy.w) =
+        P ++ (mkRef n' ++ (gy.u ++ (removerOut true gy ++ gy.w))) := by simp [mkRef]
+    rw [eT] at hd' ⊢
+    -- Q in terms of the groups
+    have eQ : Q = gy.u ++ (gy.c1 ++ (gy.p1 ++ (mkRef n ++ (gy.p2 ++ (gy.c2 ++ gy.w))))) := by
+      rw [e2, f2]; conv => lhs; rw [s1]
+      simp only [List.append_assoc]
+    rw [eQ] at hQ
+    have hAu := splitFirst_none_left _ gy.u _ hR' hQ
+    have hBw := splitFirst_none_right _ gy.c2 _ hR' (splitFirst_none_right _ gy.p2 _ hR'
+      (splitFirst_none_right _ (mkRef n) _ hR' (splitFirst_none_right _ gy.p1 _ hR'
+      (splitFirst_none_right _ gy.c1 _ hR' (splitFirst_none_right _ gy.u _ hR' hQ)))))
+    have hJgen : (∃ x ∈ removerOut true gy, clsOf x ≠ .ws) ∨ gy.u = [] ∨ (∃ us, gy.u = us ++ ['(']) ∨
+        gy.w = [] ∨ (∃ cs, gy.w = ')' :: cs) := by
+      rcases hJ with h | h | ⟨us, h⟩ | h | h
+      · exact Or.inl h
+      · simp at h
+      · right
+        rcases List.eq_nil_or_concat gy.u with hu | ⟨ys, l, hu⟩
+        · exact Or.inl hu
+        · right; left
+          rw [hu] at h
+          have h2 : ((P ++ '{' :: n') ++ '}' :: ys) ++ [l] = us ++ ['('] := by
+            rw [← h]; simp
+          have h3 := List.append_inj_right' h2 rfl
+          have hl : l = '(' := by simpa using h3
+          subst hl
+          exact ⟨ys, by rw [hu, List.concat_eq_append]⟩
+      · exact Or.inr (Or.inr (Or.inr (Or.inl h)))
+      · exact Or.inr (Or.inr (Or.inr (Or.inr h)))
+    refine ⟨P, gy.u ++ (removerOut true gy ++ gy.w), ?_, ?_, hwP.1, ?_⟩
+    · exact splitFirst_same_prefix _ hR' P Q _ hsP'
+    · exact remove_no_new_gen n' hn' gy.u _ gy.w houtc hAu hBw hJgen
+    · rcases ws_or_nonWs gy.u with hy | hy
+      · have hu0 : gy.u = [] := by
+          rcases sU with h | ⟨us, c, h, hc⟩
+          · exact h
+          · exfalso
+            have := hy c (by rw [h]; simp)
+            rw [isC, (clsOf_ws_iff c).mp this] at hc; simp at hc
+        rw [hu0] at hd' hJ ⊢
+        simp only [List.nil_append] at hd' ⊢
+        obtain ⟨q, hq, t1⟩ := chain_append_true hd'
+        obtain ⟨q3, hq3, t2⟩ := chain_append_true t1
+        obtain ⟨e3, -⟩ := run_other (mkRef n') href' hR' q q3 hq3
+        subst e3
+        cases hf : firstNonWs (removerOut true gy ++ gy.w) with
+        | none => exact Or.inl rfl
+        | some c =>
+          right
+          have hok := chain_first _ _ c t2 hf
+          obtain ⟨hcm, hcs⟩ := firstNonWs_mem _ c hf
+          rcases ws_or_nonWs (removerOut true gy) with ho | ho
+          · rcases hJ with ⟨x, hx, hxn⟩ | h | ⟨us, h⟩ | h | ⟨cs, h⟩
+            · exact absurd (ho x hx) hxn
+            · simp at h
+            · exfalso
+              have h2 : (P ++ '{' :: n') ++ ['}'] = us ++ ['('] := by rw [← h]
+              have := List.append_inj_right' h2 rfl
+              simp at this
+            · exfalso
+              rw [h, List.append_nil, ws_firstNonWs_none _ ho] at hf; cases hf
+            · rw [h, firstNonWs_ws_append _ _ ho] at hf
+              simp only [firstNonWs, show isSpace ')' = false by decide] at hf
+              right; rw [← hf]; rfl
+          · rw [firstNonWs_append_nonWs _ _ ho] at hf
+            obtain ⟨hcm2, _⟩ := firstNonWs_mem _ c hf
+            rcases houtc c hcm2 with h | h | h
+            · left; rw [comma_of_isC_nonWs c h hcs]
+            · subst h; rw [clsOf_opn] at hok; cases hok
+            · right; rw [h]
+      · rw [firstNonWs_append_nonWs _ _ hy]
+        have := hwP.2
+        rw [eQ, firstNonWs_append_nonWs _ _ hy] at this
+        exact this
+  · -- the other reference comes after: post = y ++ (R' ++ Q)
+    obtain ⟨s1, s2, -, -, -, -, -, sW⟩ := groups_spec pre y
+    have epost : post = y ++ '{' :: (n' ++ '}' :: Q) := by rw [e2]; simp [mkRef]
+    have hg : groups pre post =
+        { groups pre y with w := (groups pre y).w ++ '{' :: (n' ++ '}' :: Q) } := by
+      rw [epost]; exact groups_suffix _ _ _ '{' (by decide) (by decide)
+    generalize groups pre y = gy at hg s1 s2 sW
+    have hg' := hgdef.trans hg
+    subst hg'
+    dsimp only at f1 f2 hc1 hp1 hp2 hc2 hU hW hJ houtc hd' ⊢
+    have eout : removerOut true { gy with w := gy.w ++ '{' :: (n' ++ '}' :: Q) } = removerOut true gy := rfl
+    rw [eout] at hJ houtc hd' ⊢
+    have eT : gy.u ++ (removerOut true gy ++ (gy.w ++ '{' :: (n' ++ '}' :: Q))) =
+        (gy.u ++ (removerOut true gy ++ gy.w)) ++ (mkRef n' ++ Q) := by simp [mkRef]
+    rw [eT] at hd' ⊢
+    have hPabs : splitFirst (mkRef n') P = none := splitFirst_pre_none _ t P Q hsP
+    have eP : P = gy.u ++ (gy.c1 ++ (gy.p1 ++ (mkRef n ++ (gy.p2 ++ (gy.c2 ++ gy.w))))) := by
+      rw [e1]; conv => lhs; rw [s1, s2]
+      simp only [List.append_assoc]
+    rw [eP] at hPabs
+    have hAu := splitFirst_none_left _ gy.u _ hR' hPabs
+    have hBw := splitFirst_none_right _ gy.c2 _ hR' (splitFirst_none_right _ gy.p2 _ hR'
+      (splitFirst_none_right _ (mkRef n) _ hR' (splitFirst_none_right _ gy.p1 _ hR'
+      (splitFirst_none_right _ gy.c1 _ hR' (splitFirst_none_right _ gy.u _ hR' hPabs)))))
+    have hJgen : (∃ x ∈ removerOut true gy, clsOf x ≠ .ws) ∨ gy.u = [] ∨ (∃ us, gy.u = us ++ ['(']) ∨
+        gy.w = [] ∨ (∃ cs, gy.w = ')' :: cs) := by
+      rcases hJ with h | h | h | h | ⟨cs, h⟩
+      · exact Or.inl h
+      · exact Or.inr (Or.inl h)
+      · exact Or.inr (Or.inr (Or.inl h))
+      · simp at h
+      · right; right; right
+        cases hw : gy.w with
+        | nil => exact Or.inl rfl
+        | cons d ds =>
+          right
+          rw [hw] at h
+          simp only [List.cons_append, List.cons.injEq] at h
+          exact ⟨ds, by rw [h.1]⟩
+    have habs : splitFirst (mkRef n') (gy.u ++ (removerOut true gy ++ gy.w)) = none :=
+      remove_no_new_gen n' hn' gy.u _ gy.w houtc hAu hBw hJgen
+    refine ⟨gy.u ++ (removerOut true gy ++ gy.w), Q, ?_, hQ, ?_, hwP.2⟩
+    · have := splitFirst_append_shift (mkRef n') (mkRef n' ++ Q) _ habs (no_straddle_before_ref n' Q _ hn')
+      rw [splitFirst_self _ _ hR'] at this
+      simpa using this
+    · rcases ws_or_nonWs gy.w with hy | hy
+      · have hw0 : gy.w = [] := by
+          rcases sW with h | ⟨c, cs, h, hc⟩
+          · exact h
+          · exfalso
+            have := hy c (by rw [h]; simp)
+            rw [isC, (clsOf_ws_iff c).mp this] at hc; simp at hc
+        rw [hw0] at hd' hJ ⊢
+        simp only [List.append_nil, List.nil_append] at hd' hJ ⊢
+        obtain ⟨q, hq, t1⟩ := chain_append_true hd'
+        obtain ⟨q3, hq3, -⟩ := chain_append_true t1
+        obtain ⟨-, hqc⟩ := run_other (mkRef n') href' hR' q q3 hq3
+        have hql := run_lastNonWs _ _ _ hq
+        cases hl : lastNonWs (gy.u ++ removerOut true gy) with
+        | none => exact Or.inl rfl
+        | some c =>
+          right
+          rw [hl] at hql
+          have hql' : q = some (clsOf c) := hql
+          have hcc : clsOf c ≠ .cls := by
+            intro h; apply hqc; rw [hql', h]
+          obtain ⟨_, hcs⟩ := lastNonWs_mem _ c hl
+          rcases ws_or_nonWs (removerOut true gy) with ho | ho
+          · rw [lastNonWs_append_ws _ _ ho] at hl
+            rcases hJ with ⟨x, hx, hxn⟩ | h | ⟨us, h⟩ | h | ⟨cs, h⟩
+            · exact absurd (ho x hx) hxn
+            · rw [h] at hl; cases hl
+            · rw [h, lastNonWs_snoc us '(' (by decide)] at hl
+              right; rw [← Option.some.inj hl]
+            · cases h
+            · cases h
+          · rw [lastNonWs_append_nonWs _ _ ho] at hl
+            obtain ⟨hcm2, _⟩ := lastNonWs_mem _ c hl
+            rcases houtc c hcm2 with h | h | h
+            · left; rw [comma_of_isC_nonWs c h hcs]
+            · right; rw [h]
+            · subst h; exact absurd clsOf_cls hcc
+      · have e3 : gy.u ++ (removerOut true gy ++ gy.w) = (gy.u ++ removerOut true gy) ++ gy.w := by simp
+        rw [e3, lastNonWs_append_nonWs _ _ hy]
+        have := hwP.1
+        have e4 : gy.u ++ (gy.c1 ++ (gy.p1 ++ (mkRef n ++ (gy.p2 ++ (gy.c2 ++ gy.w))))) =
+            (gy.u ++ (gy.c1 ++ (gy.p1 ++ (mkRef n ++ (gy.p2 ++ gy.c2))))) ++ gy.w := by simp
+        rw [eP, e4, lastNonWs_append_nonWs _ _ hy] at this
+        exact this
+
+end HedVerif.Assemble
+
+namespace HedVerif.Assemble
+
+/-- one `replace_ref` step keeps every *other* reference that occurred once as a whole tag so -/
+theorem step_keeps_once (t n v pre post : Str) (hn : ∀ c ∈ n, isRefChar c = true)
+    (hs : splitFirst (mkRef n) t = some (pre, post)) (hone : splitFirst (mkRef n) post = none)
+    (hwf : delimOk t = true) (hwhole : wholeTag pre post) (hv : ValOK v)
+    (n' : Str) (hn' : ∀ c ∈ n', isRefChar c = true) (hne : n' ≠ n) (ho : Once (mkRef n') t) :
+    Once (mkRef n') (replaceRef t n v) := by
+  by_cases hrem : v = [] ∨ v = NA
+  · exact remove_keeps_once t n v pre post hn hrem hs hone hwf hwhole n' hn' hne ho
+  · have hgv : GoodItem v ∧ '{' ∉ v := by
+      rcases hv with h | h | h
+      · exact absurd (Or.inl h) hrem
+      · exact absurd (Or.inr h) hrem
+      · exact h
+    have hrep : replaceRef t n v = pre ++ (v ++ post) := by
+      rw [(HedVerif.C06.splice_at t n v pre post (fun e => hrem (Or.inl e)) (fun e => hrem (Or.inr e)) hs).2,
+        HedVerif.C06.splice_absent post n v hone, List.append_assoc]
+    rw [hrep]
+    exact splice_keeps_once t n v pre post hn hgv.2 hs hwhole n' hn' hne ho
+
+/-- every live reference is absent from the text or occurs in it exactly once, as a whole tag -/
+def RefsOK (L : List Str) (T : Str) : Prop :=
+  ∀ r ∈ L, splitFirst (mkRef r) T = none ∨ Once (mkRef r) T
+
+/-- **All references of one host text**, any number of them, in the order of the list: the result is
+accepted, balanced, and empty or not blank. -/
+theorem spliceAll_wellformed (tr : List (Str × Str)) : ∀ (L : List Str) (T : Str), L.Nodup →
+    (∀ r ∈ L, ∀ c ∈ r, isRefChar c = true) → (∀ r ∈ L, ValOK ((tr.lookup r).getD [])) →
+    delimOk T = true → balanced T → (T = [] ∨ firstNonWs T ≠ none) → RefsOK L T →
+    delimOk (spliceAll L tr T) = true ∧ balanced (spliceAll L tr T) ∧
+    (spliceAll L tr T = [] ∨ firstNonWs (spliceAll L tr T) ≠ none)
+  | [], T, _, _, _, hd, hb, hnb, _ => ⟨hd, hb, hnb⟩
+  | r :: L, T, hnd, hn, hv, hd, hb, hnb, hR => by
+    have hnd' := List.nodup_cons.mp hnd
+    have hnL : ∀ r' ∈ L, ∀ c ∈ r', isRefChar c = true := fun r' hr' => hn r' (by simp [hr'])
+    have hvL : ∀ r' ∈ L, ValOK ((tr.lookup r').getD []) := fun r' hr' => hv r' (by simp [hr'])
+    rw [spliceAll_cons]
+    rcases hR r (by simp) with habs | ⟨pre, post, hs, hone, hwh⟩
+    · rw [HedVerif.C06.splice_absent T r _ habs]
+      exact spliceAll_wellformed tr L T hnd'.2 hnL hvL hd hb hnb (fun r' hr' => hR r' (by simp [hr']))
+    · obtain ⟨h1, h2, h3, h4⟩ := step_good T r ((tr.lookup r).getD []) pre post (hn r (by simp)) hs hone
+        hd hb hwh (hv r (by simp))
+      refine spliceAll_wellformed tr L _ hnd'.2 hnL hvL h1 h2 h3 ?_
+      intro r' hr'
+      have hne : r' ≠ r := fun e => hnd'.1 (e ▸ hr')
+      rcases hR r' (by simp [hr']) with ha | ho
+      · exact Or.inl (h4 r' (hnL r' hr') ha)
+      · exact Or.inr (step_keeps_once T r _ pre post (hn r (by simp)) hs hone hd hwh (hv r (by simp))
+          r' (hnL r' hr') hne ho)
+
+/-- a host text: empty, `n/a`, or an item in which every live reference is absent or occurs once as a
+whole tag (any number of different references) -/
+def HostRefsOK (L : List Str) (T : Str) : Prop := T = [] ∨ T = NA ∨ (GoodItem T ∧ RefsOK L T)
+
+theorem host_item_multi (tr : List (Str × Str)) (L : List Str) (T : Str) (hnd : L.Nodup)
+    (hn : ∀ r ∈ L, ∀ c ∈ r, isRefChar c = true) (hv : ∀ r ∈ L, ValOK ((tr.lookup r).getD []))
+    (hT : HostRefsOK L T) : keep (spliceAll L tr T) = true → GoodItem (spliceAll L tr T) := by
+  intro hk
+  rcases hT with e | e | ⟨hg, ho⟩
+  · subst e
+    rw [spliceAll_absent tr L [] (fun r _ => rfl)] at hk
+    exact absurd hk (by decide)
+  · subst e
+    have : ∀ r ∈ L, splitFirst (mkRef r) NA = none := by
+      intro r _
+      exact splitFirst_noBrace (r ++ ['}']) NA (by decide)
+    rw [spliceAll_absent tr L NA this] at hk
+    exact absurd hk (by decide)
+  · obtain ⟨h1, h2, h3⟩ := spliceAll_wellformed tr L T hnd hn hv hg.1 hg.2.1 (Or.inr hg.2.2) ho
+    rcases h3 with e | e
+    · rw [e] at hk; exact absurd hk (by decide)
+    · exact ⟨h1, h2, e⟩
+
+theorem once_iff (R t : Str) : Once R t ↔
+    ∃ pre post, splitFirst R t = some (pre, post) ∧ splitFirst R post = none ∧ wholeTag pre post := Iff.rfl
+
+end HedVerif.Assemble
+
+namespace HedVerif.C06
+open HedVerif.Assemble
+
+/-- **The assembled row is delimiter-well-formed and balanced** — any number of references per host
+text.  `tr` is the transformed row.  If
+* the live reference names are over `[A-Za-z0-9_-]` and listed once,
+* every referenced column's text is empty, `n/a` (cell n/a, empty, unknown key) or an accepted, balanced,
+  non-blank text without braces,
+* every other column's text is empty, `n/a`, or an accepted, balanced, non-blank text in which each live
+  reference is absent or occurs **once**, as a whole tag (the hypothesis that excludes exactly the
+  registered finding `C06-same-reference-adjacent-twice`, see `once_excludes_the_finding`),
+
+then the `", "`-join of the spliced texts passes the delimiter checker and is balanced, whatever subset
+of the referenced texts is absent and in whatever order the references are processed. -/
+theorem assembled_wellformed (refs : List Str) (tr : List (Str × Str))
+    (hnd : (liveRefs refs tr).Nodup)
+    (hn : ∀ r ∈ liveRefs refs tr, ∀ c ∈ r, isRefChar c = true)
+    (hv : ∀ r ∈ liveRefs refs tr, ValOK ((tr.lookup r).getD []))
+    (hh : ∀ p ∈ tr, p.1 ∉ liveRefs refs tr → HostRefsOK (liveRefs refs tr) p.2) :
+    delimOk (joinRow ((assembled refs tr).map (·.2))) = true ∧
+    balanced (joinRow ((assembled refs tr).map (·.2))) := by
+  have hitems : ∀ x ∈ (assembled refs tr).map (·.2), keep x = true → GoodItem x := by
+    intro x hx
+    simp only [assembled, List.map_map, List.mem_map, List.mem_filter, Function.comp_def] at hx
+    obtain ⟨p, ⟨hp, hnp⟩, rfl⟩ := hx
+    exact host_item_multi tr _ p.2 hnd hn hv (hh p hp (by simpa using hnp))
+  constructor
+  · exact join_wellformed _ (fun x hx hk => good_itemOk x (hitems x hx hk))
+  · unfold joinRow balanced
+    apply join_depth
+    intro x hx
+    have := List.mem_filter.mp hx
+    exact (hitems x this.1 this.2).2.1
+
+/-- the same for `Assemble.row` (one entry of `series_a`), for every sidecar and table of the model -/
+theorem row_wellformed (refs : List Str) (sc : Sidecar) (header r : List Str)
+    (hnd : (liveRefs refs (transformed (activeCols sc header) header r)).Nodup)
+    (hn : ∀ x ∈ liveRefs refs (transformed (activeCols sc header) header r), ∀ c ∈ x, isRefChar c = true)
+    (hv : ∀ x ∈ liveRefs refs (transformed (activeCols sc header) header r),
+      ValOK (((transformed (activeCols sc header) header r).lookup x).getD []))
+    (hh : ∀ p ∈ transformed (activeCols sc header) header r,
+      p.1 ∉ liveRefs refs (transformed (activeCols sc header) header r) →
+      HostRefsOK (liveRefs refs (transformed (activeCols sc header) header r)) p.2) :
+    delimOk (row refs sc header r) = true ∧ balanced (row refs sc header r) :=
+  assembled_wellformed refs _ hnd hn hv hh
+
+/-- one text with several references: each step keeps it accepted, balanced and the remaining references
+whole; nothing is assumed about the order -/
+theorem several_references_wellformed (tr : List (Str × Str)) (L : List Str) (T : Str) (hnd : L.Nodup)
+    (hn : ∀ r ∈ L, ∀ c ∈ r, isRefChar c = true) (hv : ∀ r ∈ L, ValOK ((tr.lookup r).getD []))
+    (hg : GoodItem T) (hR : RefsOK L T) :
+    delimOk (spliceAll L tr T) = true ∧ balanced (spliceAll L tr T) ∧
+    (spliceAll L tr T = [] ∨ firstNonWs (spliceAll L tr T) ≠ none) :=
+  spliceAll_wellformed tr L T hnd hn hv hg.1 hg.2.1 (Or.inr hg.2.2) hR
+
+/-- The "once" hypothesis is exactly what the registered finding violates: in `R,{c},{c}` the reference
+occurs twice (and the clean-up leaves `R,`, `na_wellformed_counterexample`). -/
+theorem once_excludes_the_finding : ¬ Once (mkRef ['c']) "R,{c},{c}".toList := by
+  rintro ⟨pre, post, h1, h2, -⟩
+  have e : splitFirst (mkRef ['c']) "R,{c},{c}".toList = some ("R,".toList, ",{c}".toList) := by
+    decide +kernel
+  rw [e] at h1
+  simp only [Option.some.injEq, Prod.mk.injEq] at h1
+  rw [← h1.2] at h2
+  revert h2
+  decide +kernel
+
+/-- non-vacuity: `{a}, ({b}), {HED}` with `b` absent -/
+example :
+    Once (mkRef ['a']) "{a}, ({b}), {HED}".toList ∧ Once (mkRef ['b']) "{a}, ({b}), {HED}".toList ∧
+    GoodItem "{a}, ({b}), {HED}".toList ∧
+    replaceRef (replaceRef (replaceRef "{a}, ({b}), {HED}".toList ['a'] "Red".toList) ['b'] NA)
+      "HED".toList "(Pink, Dot)".toList = "Red, (Pink, Dot)".toList := by
+  refine ⟨⟨[], ", ({b}), {HED}".toList, by decide +kernel, by decide +kernel, by decide +kernel⟩,
+    ⟨"{a}, (".toList, "), {HED}".toList, by decide +kernel, by decide +kernel, by decide +kernel⟩,
+    by decide +kernel, by decide +kernel⟩
+
+end HedVerif.C06
+namespace HedVerif.Assemble
+
+/-! ### the match groups of a text written without stray blanks, and what the remover does there -/
+
+/-- ends with a character the match cannot reach over (a tag character, `)`, `}`), or is empty -/
+def HardEnd (A : Str) : Prop := A = [] ∨ ∃ as a, A = as ++ [a] ∧ isC a = false ∧ isP1 a = false
+/-- begins with a character the match cannot reach over (a tag character, `(`, `{`), or is empty -/
+def HardStart (B : Str) : Prop := B = [] ∨ ∃ b bs, B = b :: bs ∧ isC b = false ∧ isP2 b = false
+/-- a separator: nothing, or a comma followed by blanks -/
+def IsSep (s : Str) : Prop := s = [] ∨ ∃ bl, s = ',' :: bl ∧ ∀ c ∈ bl, isSpace c = true
+
+theorem sep_isC (s : Str) (h : IsSep s) : ∀ c ∈ s, isC c = true := by
+  rcases h with rfl | ⟨bl, rfl, hb⟩
+  · simp
+  · intro c hc
+    rcases List.mem_cons.mp hc with e | e
+    · subst e; decide
+    · simp [isC, hb c e]
+
+theorem dropWhile_isP1_tail : ∀ (l U : Str), (∀ c ∈ l, isC c = true) →
+    (U = [] ∨ ∃ a us, U = a :: us ∧ isC a = false ∧ isP1 a = false) →
+    ∃ E, (∀ c ∈ E, isC c = true) ∧ (l ++ U).dropWhile isP1 = E ++ U
+  | [], U, _, hU => by
+    refine ⟨[], by simp, ?_⟩
+    rcases hU with rfl | ⟨a, us, rfl, _, h2⟩
+    · rfl
+    · simp [List.dropWhile_cons, h2]
+  | c :: l, U, hl, hU => by
+    by_cases hc : isP1 c = true
+    · obtain ⟨E, hE, e⟩ := dropWhile_isP1_tail l U (fun x hx => hl x (by simp [hx])) hU
+      exact ⟨E, hE, by simp [List.dropWhile_cons, hc, e]⟩
+    · exact ⟨c :: l, hl, by simp [List.dropWhile_cons, hc]⟩
+
+theorem groups_unique_pre (U C1 P1 post : Str) (hU : HardEnd U) (hC : ∀ c ∈ C1, isC c = true)
+    (hP : ∀ c ∈ P1, isP1 c = true) (hP0 : P1 = [] ∨ ∃ ps, P1 = '(' :: ps) :
+    (groups (U ++ (C1 ++ P1)) post).u = U ∧ (groups (U ++ (C1 ++ P1)) post).c1 = C1 ∧
+    (groups (U ++ (C1 ++ P1)) post).p1 = P1 := by
+  have hu : (groups (U ++ (C1 ++ P1)) post).u = U := by
+    simp only [groups]
+    have e : (U ++ (C1 ++ P1)).reverse = P1.reverse ++ (C1.reverse ++ U.reverse) := by simp
+    rw [e, List.dropWhile_append_of_pos (fun a ha => hP a (List.mem_reverse.mp ha))]
+    have hU' : U.reverse = [] ∨ ∃ a us, U.reverse = a :: us ∧ isC a = false ∧ isP1 a = false := by
+      rcases hU with rfl | ⟨as, a, rfl, h1, h2⟩
+      · exact Or.inl rfl
+      · exact Or.inr ⟨a, as.reverse, by simp, h1, h2⟩
+    obtain ⟨E, hE, eD⟩ := dropWhile_isP1_tail C1.reverse U.reverse
+      (fun c hc => hC c (List.mem_reverse.mp hc)) hU'
+    rw [eD, List.dropWhile_append_of_pos hE]
+    rcases hU' with h | ⟨a, us, h, h1, _⟩
+    · rw [h]; simp [List.reverse_eq_nil_iff.mp h]
+    · rw [h, List.dropWhile_cons, if_neg (by simp [h1]), ← h, List.reverse_reverse]
+  obtain ⟨f1, -, -, -, -, -, -, -⟩ := groups_spec (U ++ (C1 ++ P1)) post
+  rw [hu] at f1
+  have hreg := List.append_cancel_left f1
+  have hc1 : (groups (U ++ (C1 ++ P1)) post).c1 = C1 := by
+    have : (groups (U ++ (C1 ++ P1)) post).c1 =
+        ((groups (U ++ (C1 ++ P1)) post).c1 ++ (groups (U ++ (C1 ++ P1)) post).p1).takeWhile isC := by
+      simp only [groups, List.takeWhile_append_dropWhile]
+    rw [this, ← hreg, List.takeWhile_append_of_pos hC]
+    rcases hP0 with rfl | ⟨ps, rfl⟩
+    · simp
+    · simp [List.takeWhile_cons, show isC '(' = false by decide]
+  refine ⟨hu, hc1, ?_⟩
+  rw [hc1] at hreg
+  exact (List.append_cancel_left hreg).symm
+
+theorem groups_unique_post (pre P2 C2 W : Str) (hP : ∀ c ∈ P2, isP2 c = true) (hC : IsSep C2)
+    (hW : HardStart W) :
+    (groups pre (P2 ++ (C2 ++ W))).p2 = P2 ∧ (groups pre (P2 ++ (C2 ++ W))).c2 = C2 ∧
+    (groups pre (P2 ++ (C2 ++ W))).w = W := by
+  have hCc := sep_isC C2 hC
+  have hstop : (C2 ++ W).takeWhile isP2 = [] ∧ (C2 ++ W).dropWhile isP2 = C2 ++ W := by
+    rcases hC with rfl | ⟨bl, rfl, _⟩
+    · rcases hW with rfl | ⟨b, bs, rfl, _, h2⟩
+      · simp
+      · simp [List.takeWhile_cons, List.dropWhile_cons, h2]
+    · simp [List.takeWhile_cons, List.dropWhile_cons, show isP2 ',' = false by decide]
+  have hstopW : W.takeWhile isC = [] ∧ W.dropWhile isC = W := by
+    rcases hW with rfl | ⟨b, bs, rfl, h1, _⟩
+    · simp
+    · simp [List.takeWhile_cons, List.dropWhile_cons, h1]
+  simp only [groups]
+  rw [List.takeWhile_append_of_pos hP, List.dropWhile_append_of_pos hP, hstop.1, hstop.2,
+    List.takeWhile_append_of_pos hCc, List.dropWhile_append_of_pos hCc, hstopW.1, hstopW.2]
+  simp
+
+theorem splitFirst_at (R A0 rest : Str) (hR : R ≠ []) (hA : splitFirst R A0 = none)
+    (hb : ∀ a' m, a' ≠ [] → m ≠ [] → R = a' ++ m → a' <:+ A0 → m <+: R ++ rest → False) :
+    splitFirst R (A0 ++ (R ++ rest)) = some (A0, rest) := by
+  have := splitFirst_append_shift R (R ++ rest) A0 hA hb
+  rw [splitFirst_self _ _ hR] at this
+  simpa using this
+
+end HedVerif.Assemble
+
+namespace HedVerif.Assemble
+
+theorem noBrace_of_classes (s : Str) (h : ∀ c ∈ s, isC c = true ∨ c = '(' ∨ c = ')') : '{' ∉ s := by
+  intro hm
+  rcases h _ hm with h | h | h
+  · revert h; decide
+  · cases h
+  · cases h
+
+/-- **What the regex match is and what is put back**, for a reference written with `a` opening
+parentheses directly before it and `b` closing ones directly after, an optional separator (comma and
+blanks) on either side, between texts the match cannot reach into. -/
+theorem replaceRef_shape (n v A c1s c2s B : Str) (a b : Nat) (hn : ∀ c ∈ n, isRefChar c = true)
+    (hv : v = [] ∨ v = NA) (hA : HardEnd A) (hB : HardStart B) (h1 : IsSep c1s) (h2 : IsSep c2s)
+    (habsA : splitFirst (mkRef n) A = none) (habsB : splitFirst (mkRef n) B = none) :
+    replaceRef (A ++ (c1s ++ (List.replicate a '(' ++ (mkRef n ++ (List.replicate b ')' ++ (c2s ++ B)))))) n v =
+      A ++ (removerOut true ⟨A, c1s, List.replicate a '(', List.replicate b ')', c2s, B⟩ ++ B) := by
+  have hR := mkRef_ne n
+  have hbad := refChars_bad n hn
+  have hc1 := sep_isC c1s h1
+  have hc2 := sep_isC c2s h2
+  -- the occurrence
+  have hmid : '{' ∉ c1s ++ List.replicate a '(' := by
+    apply noBrace_of_classes
+    intro c hc
+    rcases List.mem_append.mp hc with h | h
+    · exact Or.inl (hc1 c h)
+    · exact Or.inr (Or.inl (List.mem_replicate.mp h).2)
+  have hpre : splitFirst (mkRef n) (A ++ (c1s ++ List.replicate a '(')) = none := by
+    apply splitFirst_append_none _ _ _ hR habsA (splitFirst_noBrace (n ++ ['}']) _ hmid)
+    intro a' m ha hm e _ hp
+    have hh := (mkRef_split n a' m ha hm e).2
+    have hd := prefix_head m _ hm hp
+    cases hx : m.head? with
+    | none => cases m with
+      | nil => exact hm rfl
+      | cons _ _ => simp at hx
+    | some x =>
+      have hxb := hbad x (by rcases hh x hx with h | h; exact Or.inl h; exact Or.inr (Or.inl h))
+      rw [hx] at hd
+      have hxm : x ∈ c1s ++ List.replicate a '(' := List.mem_of_mem_head? hd.symm
+      rcases List.mem_append.mp hxm with h | h
+      · rw [hc1 x h] at hxb; cases hxb.1
+      · exact hxb.2.1 (List.mem_replicate.mp h).2
+  have hs : splitFirst (mkRef n) (A ++ (c1s ++ (List.replicate a '(' ++ (mkRef n ++
+      (List.replicate b ')' ++ (c2s ++ B)))))) =
+      some (A ++ (c1s ++ List.replicate a '('), List.replicate b ')' ++ (c2s ++ B)) := by
+    have := splitFirst_at (mkRef n) (A ++ (c1s ++ List.replicate a '('))
+      (List.replicate b ')' ++ (c2s ++ B)) hR hpre (no_straddle_before_ref n _ _ hn)
+    simpa [List.append_assoc] using this
+  have hone : splitFirst (mkRef n) (List.replicate b ')' ++ (c2s ++ B)) = none := by
+    have hnb : '{' ∉ List.replicate b ')' ++ c2s := by
+      apply noBrace_of_classes
+      intro c hc
+      rcases List.mem_append.mp hc with h | h
+      · exact Or.inr (Or.inr (List.mem_replicate.mp h).2)
+      · exact Or.inl (hc2 c h)
+    have := splitFirst_skip (n ++ ['}']) (List.replicate b ')' ++ c2s) B hnb
+    rw [show mkRef n = '{' :: (n ++ ['}']) from rfl, ← List.append_assoc, this]
+    rw [show mkRef n = '{' :: (n ++ ['}']) from rfl] at habsB
+    rw [habsB]; rfl
+  -- one step of the substitution loop
+  have hf : ∀ x y : Str, (removeF true x y).2.length ≤ y.length := by
+    intro x y
+    show ((y.dropWhile isP2).dropWhile isC).length ≤ y.length
+    exact Nat.le_trans (List.dropWhile_sublist _).length_le (List.dropWhile_sublist _).length_le
+  obtain ⟨gu, gc1, gp1⟩ := groups_unique_pre A c1s (List.replicate a '(')
+    (List.replicate b ')' ++ (c2s ++ B)) hA hc1
+    (fun c hc => by rw [(List.mem_replicate.mp hc).2]; decide)
+    (by cases a with
+      | zero => exact Or.inl rfl
+      | succ k => exact Or.inr ⟨List.replicate k '(', by simp [List.replicate_succ]⟩)
+  obtain ⟨gp2, gc2, gw⟩ := groups_unique_post (A ++ (c1s ++ List.replicate a '(')) (List.replicate b ')') c2s B
+    (fun c hc => by rw [(List.mem_replicate.mp hc).2]; decide) h2 hB
+  have hw0 : splitFirst (mkRef n) B = none := habsB
+  unfold replaceRef
+  have eo : removerOut true (groups (A ++ (c1s ++ List.replicate a '(')) (List.replicate b ')' ++ (c2s ++ B))) =
+      removerOut true ⟨A, c1s, List.replicate a '(', List.replicate b ')', c2s, B⟩ := by
+    simp only [removerOut, gc1, gp1, gp2, gc2]
+  rw [if_pos hv, sub_step _ _ hR hf _ _ _ hs]
+  simp only [removeF]
+  rw [gw, subF_none _ _ _ _ hw0, gu, eo, List.append_assoc]
+
+end HedVerif.Assemble
+
+namespace HedVerif.C06
+open HedVerif.Assemble
+
+/-- **Removal, position by position** (unbounded: any surrounding texts, any depth `m` of groups of which
+the reference is the sole member, any blanks after the commas).  With the cell `n/a` or empty:
+* *middle or last member with a comma before it*: `A, ((R))␣, B` ↦ `A, B` — the reference, its own
+  parentheses and the comma before it go, what follows stays;
+* *last member of a group*: `A, ((R))))…` with `j` more closing parentheses ↦ `A))…` — the comma before goes,
+  the `j` parentheses of the enclosing groups stay;
+* *first member of a group*: `…((((R)), B` with `j` more opening parentheses ↦ `…((B` — the comma after
+  goes, the `j` parentheses of the enclosing groups (and whatever comma stood before them) stay;
+* *sole content* (`((R))` at the start, nothing or a comma after): everything goes. -/
+theorem removal_positions (n v A B bl c1s c2s : Str) (m j : Nat) (hn : ∀ c ∈ n, isRefChar c = true)
+    (hv : v = [] ∨ v = NA) (hA : HardEnd A) (hB : HardStart B) (hbl : ∀ c ∈ bl, isSpace c = true)
+    (h1 : IsSep c1s) (h2 : IsSep c2s)
+    (habsA : splitFirst (mkRef n) A = none) (habsB : splitFirst (mkRef n) B = none) :
+    -- middle / last with equal parentheses
+    replaceRef (A ++ ((',' :: bl) ++ (List.replicate m '(' ++ (mkRef n ++ (List.replicate m ')' ++ (c2s ++ B)))))) n v
+      = A ++ (c2s ++ B) ∧
+    -- last member of `j` enclosing groups
+    (0 < j → replaceRef (A ++ (c1s ++ (List.replicate m '(' ++ (mkRef n ++
+        (List.replicate (m + j) ')' ++ (c2s ++ B)))))) n v = A ++ (List.replicate j ')' ++ (c2s ++ B))) ∧
+    -- first member of `j` enclosing groups
+    (0 < j → replaceRef (A ++ (c1s ++ (List.replicate (m + j) '(' ++ (mkRef n ++
+        (List.replicate m ')' ++ (c2s ++ B)))))) n v = A ++ (c1s ++ (List.replicate j '(' ++ B))) ∧
+    -- nothing before it
+    replaceRef (A ++ (List.replicate m '(' ++ (mkRef n ++ (List.replicate m ')' ++ (c2s ++ B))))) n v = A ++ B := by
+  have hsep : IsSep (',' :: bl) := Or.inr ⟨bl, rfl, hbl⟩
+  refine ⟨?_, ?_, ?_, ?_⟩
+  · rw [replaceRef_shape n v A (',' :: bl) c2s B m m hn hv hA hB hsep h2 habsA habsB]
+    simp [removerOut, List.count_replicate]
+  · intro hj
+    rw [replaceRef_shape n v A c1s c2s B m (m + j) hn hv hA hB h1 h2 habsA habsB]
+    have h1' : ¬ (m > m + j) := by omega
+    have h2' : m + j > m := by omega
+    simp [removerOut, List.count_replicate, h1', h2']
+  · intro hj
+    rw [replaceRef_shape n v A c1s c2s B (m + j) m hn hv hA hB h1 h2 habsA habsB]
+    have h2' : m + j > m := by omega
+    simp [removerOut, List.count_replicate, h2']
+  · have := replaceRef_shape n v A [] c2s B m m hn hv hA hB (Or.inl rfl) h2 habsA habsB
+    simp only [List.nil_append] at this
+    rw [this]
+    simp [removerOut, List.count_replicate]
+
+example : replaceRef "(Red, (({c})), Blue)".toList ['c'] NA = "(Red, Blue)".toList ∧
+    replaceRef "(Red, (({c})))".toList ['c'] NA = "(Red)".toList ∧
+    replaceRef "A, ((({c})), Blue)".toList ['c'] NA = "A, (Blue)".toList ∧
+    replaceRef "(({c})), Blue".toList ['c'] NA = "Blue".toList := by decide +kernel
 
 end HedVerif.C06
